@@ -387,6 +387,57 @@ def r7_imports_delegated(ctx, sym):
                       ', another import function %d time(s)' % len(other) if other else ''),
                   "`from email import utils` raises ImportError in the sandbox when email.utils was not imported before")
     ctx.floor('R7', 'allowed import forms', n, 7)
+    # ... and over histories: one closure asked for the same dotted module in different forms, in both orders.  The
+    # real __import__ answers per (name, fromlist emptiness) - the package for `import a.b`, the submodule for
+    # `from a.b import c` - so a replacement that remembers an answer under the name alone hands back the wrong one.
+    from .. import symexec
+    from ..fdeval import Obj as _Obj, Raised, Inconclusive
+    maker = mm.func('create_import_function')
+    histories = [
+        [('os.path', (), 0), ('os.path', ('basename',), 0)],
+        [('os.path', ('basename',), 0), ('os.path', (), 0)],
+        [('email.utils', ('parseaddr',), 0), ('email.utils', (), 0), ('email.utils', ('formatdate',), 0)],
+        [('json', (), 0), ('json', ('tool',), 0), ('json', (), 0)],
+    ]
+    h = 0
+    for hist in histories:
+        answers = {}
+
+        def real_import(name, g=None, l=None, fromlist=(), level=0):
+            key = (name, bool(fromlist))
+            if key not in answers:
+                answers[key] = _Obj('module:%s%s' % (name if fromlist else name.split('.')[0],
+                                                      '' if fromlist or '.' not in name else ' (top package)'))
+            return answers[key]
+        real_import._fd_callable = True
+        sandbox = _Obj('sandbox', threaded=False)
+        symexec.method(sandbox, '_import', lambda *a, **k: _Obj('student-module'))
+        report = _Obj('report', submission=_Obj('submission', files={'helper.py': 'K = 1'}))
+        fd = symexec.new_fd(sym, mm, calls={'importlib.import_module': real_import, '__import__': real_import,
+                                            'importlib.__import__': real_import, 'builtins.__import__': real_import},
+                            extra={'ORIGINAL_BUILTINS': {'__import__': real_import}, 'sys.modules': {}})
+        closure, raised = symexec.run(fd, maker, [report, sandbox], what='create_import_function')
+        if raised is not None or not callable(closure):
+            raise AnalysisError("create_import_function does not return the import replacement (%r)" % (raised or closure,))
+        wrong = []
+        for name, fromlist, level in hist:
+            try:
+                got = closure(name, {'__name__': '__main__'}, {}, fromlist, level)
+            except Raised as e:
+                wrong.append('%s/%r raises %s' % (name, fromlist, e.kind))
+                continue
+            except Inconclusive as e:
+                raise AnalysisError("_restricted_import is outside the decidable fragment: %s" % e)
+            want = real_import(name, None, None, fromlist, level)
+            if got is not want:
+                wrong.append('%s with fromlist %r gives %s, the real import gives %s' % (
+                    name, fromlist, getattr(got, '_name', got), want._name))
+        h += 1
+        ctx.check(not wrong, 'R7', 'import-history[%s]' % '; '.join('%s/%r' % (n_, f) for n_, f, _ in hist), mm, ri,
+                  "one sandbox importing %s: %s" % (', then '.join('%s (fromlist %r)' % (n_, f) for n_, f, _ in hist),
+                                                   '; '.join(wrong)),
+                  "import os.path\nfrom os.path import basename   # ImportError in the sandbox, fine in plain Python")
+    ctx.floor('R7', 'import histories', h, 4)
 
 
 def r8_namespace_kept(ctx, sym, mod):
